@@ -923,11 +923,25 @@ class ModelToken(OpaqueNode):
         return f"<model {self.trees}>"
 
 
-def _split_model(a, indices, axis=0):
-    if isinstance(a, AT) and len(a.axes) == 1 and isinstance(a.axes[0], int):
-        idx = [int(_dim(i)) for i in (indices if not isinstance(indices, AT) else indices.entries())]
-        bounds = [0] + idx + [a.axes[0]]
-        return [a[bounds[i]:bounds[i + 1]] for i in range(len(bounds) - 1)]
+def _split_model(a, indices_or_sections, axis=0):
+    indices = indices_or_sections
+    if isinstance(a, AT) and a.axes:
+        try:
+            ax = int(_dim(axis)) % len(a.axes)
+        except Exception:
+            ax = None
+        if ax is not None and isinstance(a.axes[ax], int):
+            n = a.axes[ax]
+            if isinstance(indices, (int, Poly)) and not isinstance(indices, bool):
+                k = int(_dim(indices))                       # k equal sections
+                if k <= 0 or n % k:
+                    raise Finding(f"split of an axis of {n} entries into {k} equal sections")
+                idx = [i * (n // k) for i in range(1, k)]
+            else:
+                idx = [int(_dim(i)) for i in (indices if not isinstance(indices, AT) else indices.entries())]
+            bounds = [0] + idx + [n]
+            sel = lambda lo, hi: a[(slice(None),) * ax + (slice(lo, hi),)]
+            return [sel(bounds[i], bounds[i + 1]) for i in range(len(bounds) - 1)]
     return term('split_array', a, indices)
 
 
@@ -1170,6 +1184,8 @@ def _meshgrid(*vecs, indexing="xy", **kw):
 
 
 def _divmod_model(a, b):
+    if isinstance(a, SymDim) and isinstance(b, (SymDim, int)):
+        return a // b, a % b                     # extents: the same values as the two operators give
     try:
         ia, ib = _dim(a), _dim(b)
         if isinstance(ia, int) and isinstance(ib, int) and ib != 0:
@@ -1192,6 +1208,14 @@ def _where(c, a=None, b=None):
         return term('where', c)
     if isinstance(c, (bool, np.bool_)):
         return a if c else b
+    if isinstance(c, BoolVector) and all(isinstance(v, (bool, np.bool_)) for v in c):
+        # a concrete boolean vector: entry-wise selection among (broadcast) concrete operands
+        n = len(c)
+        aa, bb = to_at(a), to_at(b)
+        if all(isinstance(x, int) for x in aa.axes + bb.axes) and len(aa.axes) <= 1 and len(bb.axes) <= 1 \
+                and (aa.axes in ((), (1,), (n,))) and (bb.axes in ((), (1,), (n,))):
+            pick = lambda t, i: t.data[()] if t.axes == () else (t.data[0] if t.axes == (1,) else t.data[i])
+            return AT((n,), np.array([pick(aa, i) if c[i] else pick(bb, i) for i in range(n)], dtype=object))
     try:
         return merge_cond(as_pred(c), a, b)
     except Top:
@@ -1328,6 +1352,15 @@ def _dynamic_slice_in_dim(operand, start_index, slice_size, axis=0):
     if fz(axis) != 0:
         raise Top("dynamic_slice_in_dim along an axis other than 0")
     return term('dynamic_slice', operand, (start_index, alg.ROWS_REST), (slice_size, alg.ROWS_REST))
+
+
+def _linearize(f, *primals):
+    """jax.linearize(f, x) = (f(x), v -> jvp(f, (x,), (v,))[1])"""
+    y = f(*primals)
+
+    def f_jvp(*tangents):
+        return alg.jax_jvp(f, tuple(primals), tuple(tangents))[1]
+    return y, f_jvp
 
 
 def _dynamic_update_slice(operand, update, start_indices):
@@ -1618,7 +1651,7 @@ def make_world_externals(world_ref):
                 permutation=_random_permutation, PRNGKey=opaque_fn('PRNGKey'), key=opaque_fn('PRNGKey'))
     jax = NS("jax", numpy=jnp, lax=lax, random=random, tree_util=tree_util, tree=tree,
              nn=NS("jax.nn", one_hot=alg.one_hot),
-             grad=alg.jax_grad, hessian=alg.jax_hessian, jacrev=alg.jax_jac, jacfwd=alg.jax_jac, jvp=alg.jax_jvp,
+             grad=alg.jax_grad, hessian=alg.jax_hessian, jacrev=alg.jax_jac, jacfwd=alg.jax_jac, jvp=alg.jax_jvp, linearize=_linearize,
              vmap=lambda f, in_axes=0, out_axes=0, **kw: VMapped(f, in_axes, out_axes, **kw),
              jit=_identity_decorator, value_and_grad=_value_and_grad,
              debug=NS("jax.debug", print=_print), device_put=lambda x, *a, **k: x,
